@@ -25,7 +25,7 @@ import (
 // from the range key by an injective expression (the key, a Sprintf/concatenation containing it).  Another field can be
 // equal for two map entries, and equal elements keep map order.
 func c18Comparators(c *Ctx) {
-	c.R.Rule("comparator-order", "every bool comparator literal handed to sort.Slice/SliceStable/slices.SortFunc/SortStableFunc in the generator packages, interpreted over abstract valuations (same-key comparisons three-valued, other sub-conditions opaque per element): never less(a,b) and less(b,a) at once, true for some valuation, and never a comparison of two different keys across the elements", 10)
+	c.R.Rule("comparator-order", "every bool comparator literal handed to sort.Slice/SliceStable/slices.SortFunc/SortStableFunc in the generator packages, interpreted over abstract valuations (same-key comparisons three-valued, other sub-conditions opaque per element): never less(a,b) and less(b,a) at once, true for some valuation, and never a comparison of two different keys across the elements", 6)
 	type keyed struct{ pos, key, field, msg string }
 	var keyRes []keyed
 	for _, path := range c.W.ModulePackages() {
@@ -100,7 +100,7 @@ func c18Comparators(c *Ctx) {
 			}
 		}
 	}
-	c.R.Rule("sort-key-from-map-key", "a slice filled while ranging over a map and sorted in the same function: the field the comparator finally decides on is filled from the range key (the key itself, or a Sprintf/concatenation containing it)", 2)
+	c.R.Rule("sort-key-from-map-key", "a slice filled while ranging over a map and sorted in the same function: the field the comparator finally decides on is filled from the range key (the key itself, or a Sprintf/concatenation containing it)", 1)
 	for _, k := range keyRes {
 		if k.msg != "" {
 			c.R.Bad(k.key, k.pos, k.msg)
